@@ -594,6 +594,17 @@ def gen_adjustable(repo):
         if impls != [rust_ty]:
             raise Unsupported(f'{d}/adjustable.rs: expected exactly `impl<T> Adjustable<T> for {rust_ty}<T>`, found {impls}')
         items = fn_items(src)
+        # `update` / `adjust` must be the trait's methods: inside the `impl Adjustable<T> for …` block. An inherent method of
+        # the same name would leave the trait with its default `Ok(())` body (calls through the trait then do nothing).
+        mi = re.search(r'impl\s*<T>\s*Adjustable<T>\s*for\s*\w+<T>', src)
+        b0 = src.index('{', mi.end())
+        depth, b1 = 1, b0 + 1
+        while depth:
+            depth += (src[b1] == '{') - (src[b1] == '}')
+            b1 += 1
+        for it in items:
+            if it['name'] in ('update', 'adjust') and not (b0 < it['start'] and it['end'] <= b1):
+                raise Unsupported(f'{d}/adjustable.rs: fn {it["name"]} is not inside `impl Adjustable<T> for {rust_ty}<T>`')
         names = [it['name'] for it in items]
         if len(set(names)) != len(names) or not {'update', 'adjust'} <= set(names):
             raise Unsupported(f'{d}/adjustable.rs: functions {names} (expected update and adjust, plus private helpers)')
